@@ -1,22 +1,30 @@
 #!/usr/bin/env python3
-"""prints the prompt for a seeding sub-agent: tools/seed_prompt.py Cxx /tmp/seed-Cxx [n]"""
-import json,sys
-pid,wt=sys.argv[1],sys.argv[2]
-n=int(sys.argv[3]) if len(sys.argv)>3 else 2
+"""writes the prompt for a seeding sub-agent: tools/seed_prompt.py <name> <n_per_property> Cxx [Cyy ...]
+   creates the worktree /tmp/seed-<name> and prints the path of the prompt file"""
+import json,sys,subprocess,os
+name=sys.argv[1]; n=int(sys.argv[2]); pids=sys.argv[3:]
+wt=f"/tmp/seed-{name}"
+if not os.path.exists(wt):
+    subprocess.run(["git","-C","/repo","worktree","add",wt,"HEAD"],check=True,stdout=subprocess.DEVNULL,stderr=subprocess.DEVNULL)
+props={}
 for l in open('/verif/properties.jsonl'):
     p=json.loads(l)
-    if p['id']==pid: break
-txt=json.dumps({k:p[k] for k in ('id','title','statement','quantifier','why_tests_cant','anchors')},indent=1)
-print(f"""You are testing how well a (hidden) verification suite detects regressions in the Go project lmorg/murex (a shell + scripting language). You have your own scratch git worktree of the project at {wt} (already created; work ONLY there — never touch /repo or /verif, and do not read anything under /verif).
+    if p['id'] in pids: props[p['id']]=p
+txt="\n\n".join(json.dumps({k:props[i][k] for k in ('id','title','statement','quantifier','why_tests_cant','anchors')},indent=1) for i in pids)
+out=f"""You are testing how well a (hidden) verification suite detects regressions in the Go project lmorg/murex (a shell + scripting language). You have your own scratch git worktree of the project at {wt} (already created; work ONLY there — never touch /repo or /verif, and do not read anything under /verif).
 
-Here is a semantic property of murex that should always hold:
+Here are {len(pids)} semantic properties of murex that should always hold:
 
 {txt}
 
-Task: produce {n} DIFFERENT, independent source changes to murex (each a separate patch against the worktree's HEAD) that each BREAK this property while (a) the project still compiles (`go build ./...`), and (b) the project's existing test suite still passes. Each change should be realistic (the kind of bug a developer could introduce in a refactor or feature change: an off-by-one, a dropped condition, a wrong variable, a missing lock/reset, a mishandled special case) and should need something SPECIFIC to manifest — a particular input, a multi-step sequence of operations, a particular interleaving/timing, a crash or fault at a particular point, or two cooperating sites that each look fine alone — NOT something that ordinary use would expose at once (if every basic use of the feature breaks, the existing tests would fail and the change is too blunt). Prefer changing the logic in the files the anchors name (or their direct collaborators). Do not change tests. Do not add build tags.
+Task: for EACH property above produce {n} source change(s) to murex (each a separate, independent patch against the worktree's HEAD) that BREAKS that property while (a) the project still compiles (`go build ./...`), and (b) the project's existing test suite still passes. Each change should be realistic (the kind of bug a developer could introduce in a refactor or feature change: an off-by-one, a dropped condition, a wrong variable, a missing lock/reset, a mishandled special case) and should need something SPECIFIC to manifest — a particular input, a multi-step sequence of operations, a particular interleaving/timing, a crash or fault at a particular point, or two cooperating sites that each look fine alone — NOT something that ordinary use would expose at once (if every basic use of the feature breaks, the existing tests would fail and the change is too blunt). Prefer changing the logic in the files the anchors name (or their direct collaborators; line numbers in the anchors may have drifted). Do not change tests. Do not add build tags. Ignore files named verif_*.go / *_verif.go (test instrumentation that is compiled out).
 
 For each change also write a demonstration: a Go test file (placed where it compiles, e.g. next to the changed package, named verif_seed_demo_test.go) or a small shell script that runs murex code, that FAILS with the change and PASSES without it, showing the property violated on a concrete input/sequence.
 
-Environment: every shell call needs `export GOFLAGS=-mod=mod GOPROXY=off` (and do NOT set GOTOOLCHAIN or GOSUMDB); there is no network. Build a murex binary with `cd {wt} && go build -o /tmp/murex-seed-{pid} .` and run code with `MUREX_TEST=1 HOME=/tmp/mxhome-{pid} /tmp/murex-seed-{pid} -c '<murex code>'`. Run the existing tests of the packages you touched with `go test -vet=off -count=1 ./path/...`, and before you finish run the whole suite once per change: `cd {wt} && go test -mod=mod -vet=off -count=1 -timeout 25m ./... 2>&1 | grep -v '^ok\\|no test files' | tail -30` (two tests fail already on the untouched tree: note which ones first by running the suite on the untouched worktree, they don't count).
+Environment: every shell call needs `export GOFLAGS=-mod=mod GOPROXY=off` (and do NOT set GOTOOLCHAIN or GOSUMDB); there is no network. The machine is shared and heavily loaded: always pass `-p 4` to go test, keep outputs short (pipe through tail/head), and treat a package that TIMES OUT (rather than fails an assertion) as inconclusive — re-run it alone. Build a murex binary with `cd {wt} && go build -o /tmp/murex-seed-{name} .` and run code with `MUREX_TEST=1 HOME=/tmp/mxhome-{name} /tmp/murex-seed-{name} -c '<murex code>'`. Run the existing tests of the packages you touched with `go test -p 4 -vet=off -count=1 ./path/...`, and once per change run the whole suite: `cd {wt} && go test -p 4 -mod=mod -vet=off -count=1 -timeout 25m ./... 2>&1 | grep -v '^ok\\|no test files' | tail -30`. On the untouched tree TestHttp (builtins/core/open) and TestAspellInstalled (shell) already fail; under load the shell/autocomplete "timed out" tests and builtins/core/structs TestForEachParallel are flaky — those don't count.
 
-Deliver, in the directory {wt}-out/ (create it): for change k=1..{n}: `k/patch.diff` (output of `git -C {wt} diff` for that change alone, applying cleanly to HEAD with `git apply`), `k/demo/` (the demonstration file(s) and a `run.sh` that exits non-zero when the property is violated; it receives the path of a murex source tree as $1 and must build/run against it), `k/notes.md` (what was changed, why it breaks the property, exactly what is needed for it to manifest, and the output of the demonstration with and without the change). Reset the worktree to HEAD between changes (`git -C {wt} checkout -- . && git -C {wt} clean -fd`) and at the end. Remove /tmp/murex-seed-{pid} at the end. Your final message: for each change a 3-line summary (file/function changed, trigger, demo result with/without, full-suite result).""")
+Deliver, in the directory {wt}-out/ (create it), one sub-directory per change named <PropertyId>-<k> (e.g. {pids[0]}-1) containing: `patch.diff` (output of `git -C {wt} diff` for that change alone, applying cleanly to HEAD with `git apply`; do not include the demo in the patch), `demo/` (the demonstration file(s) and a `run.sh` that exits non-zero when the property is violated; it receives the path of a murex source tree as $1 and must build/run against it — for a Go test demo, run.sh copies the test file into the right package directory of $1, runs `go test -run <Name>` there and removes it again), `notes.md` (what was changed, why it breaks the property, exactly what is needed for it to manifest, and the output of the demonstration with and without the change). Reset the worktree to HEAD between changes (`git -C {wt} checkout -- . && git -C {wt} clean -fd`) and at the end. Remove /tmp/murex-seed-{name} at the end. Your final message: for each change a 3-line summary (file/function changed, trigger, demo result with/without, full-suite result).
+"""
+pf=f"/tmp/seedprompt-{name}.md"
+open(pf,"w").write(out)
+print(pf)
